@@ -155,5 +155,26 @@ def fill(chk, not_yet):
         "cases with a support within 1e-9 of the threshold are skipped (the property's quantifier).",
         "runtime monitoring: reference-model oracle (clade supports) over generated traces",
         "DESIGN.md 4/C16")
+    chk("C18", "exploration",
+        "Real `phyclone run --seed S` subprocesses (3 configurations quick, 15 thorough: proposal x outliers x clustered x "
+        "1/2/4 chains), each under a reference environment and perturbed ones - PYTHONHASHSEED 1/12345/random, one core "
+        "(taskset), nice, concurrent load, and sitecustomize failpoints that hold chain k's return until named chains "
+        "have finished (reversed / rotated completion order): per chain exact equality of iter, alpha bits, log_p_one "
+        "bits, canonical tree and labels. Evidence lists completion orders and hash seeds actually observed; a multi-"
+        "chain configuration with a single observed order is inconclusive.",
+        "time entries excluded; same machine and libraries across compared runs; schedules explored are those the "
+        "failpoints and the OS produced, not all.",
+        "runtime monitoring: differential traces of real processes under perturbed schedules / hash seeds (failpoint-ordered chain completion)",
+        "DESIGN.md 4/C18")
+    chk("C20", "fault_enumeration",
+        "Every byte prefix of trace files written by the real writer from real chain runs (1 chain unclustered, 3 chains "
+        "clustered; thorough +2) is read by map, consensus and topology-report in-process: the reader raises or its "
+        "output files are byte-identical to the complete file's. Plus real `phyclone run` processes whose final write is "
+        "cut at byte N by a failpoint (os._exit / ENOSPC), read back by the real CLI (non-zero exit or identical output; "
+        "the run itself must not exit 0). Exhaustive over crash points of the traces used.",
+        "single gzip stream written at the end of the run; a cut inside the 8-byte gzip trailer that still yields the "
+        "complete content is accepted.",
+        "runtime monitoring with fault injection: exhaustive truncation points + write-failure failpoints in real processes",
+        "DESIGN.md 4/C20")
     for pid in ["C02","C03","C05","C06","C07","C08","C09","C10","C11","C12","C13","C14","C15","C16","C17","C18","C19","C20"]:
         not_yet[pid] = "check under construction in this session (runtime monitor designed in DESIGN.md section 4); not claimed until it runs clean"
